@@ -103,7 +103,8 @@ def awake_call(task):
                 val = NONE
             else:
                 val = None
-            st1.trace.append(('awake', task, kind, val))
+            flag = st1.objs.get('main', {}).get('_in_awake_call')
+            st1.trace.append(('awake', task, kind, val, flag))
             # a task may schedule things itself (same thread, lock held)
             st1.objs['__queue'] = {}
             if val is not None:
@@ -201,7 +202,10 @@ def perform_iteration(timebase, sched_name):
         t0, task = pops[0][1], pops[0][2]
         kind, val = awakes[0][2], awakes[0][3]
         order = ev.index(lts[0]) < ev.index(awakes[0])
+        flag = awakes[0][4] if len(awakes[0]) > 4 else None
         clauses = [base, z3.BoolVal(order),
+                   # the task runs with the awake flag SET (scheduling from inside a task relies on it)
+                   flag.z if flag is not None and flag.k == 'bool' else z3.BoolVal(False),
                    # never early: the popped time is not after the time base reading
                    t0 <= now,
                    # the awake flag is cleared on every outcome
@@ -220,19 +224,37 @@ def perform_iteration(timebase, sched_name):
     return inv
 
 
-def fresh_deadline(conv):
+def fresh_deadline(conv, now_of=None):
     """per-iteration obligation of the 'wait until an event is ready' loop: a
     timed wait sleeps exactly until the CURRENT earliest entry (read after the
     previous wait, not a stale one) measured from a time reading of this
-    iteration"""
+    iteration; and the loop's notion of "now" (what decides which entries are
+    due) is a time reading of THIS pass, converted by the clock's current map"""
     def inv(c, L):
         ev = since(c.trace, 2)
         if not ev:
             return z3.BoolVal(True)
         waits = [e for e in ev if e[0] == 'wait']
         times = [e for e in ev if e[0] == 'time']
+        if getattr(L, 'phase', None) == 'after' and now_of is not None:
+            if not times:
+                return z3.BoolVal(False)
+            n = now_of(c, L)
+            if isinstance(n, tuple):
+                _, eb, s_ = n
+                eb = z3.ToReal(eb) if z3.is_int(eb) else eb
+                fresh = eb == (times[0][1] - s_._base_seconds) * s_._tempo + s_._base_beats
+            else:
+                n = z3.ToReal(n) if z3.is_int(n) else n
+                fresh = n == times[0][1]
+            rest = inv_rest(c, L, ev, waits, times)
+            return z3.And(fresh, rest)
+        return inv_rest(c, L, ev, waits, times)
+
+    def inv_rest(c, L, ev, waits, times):
         if not waits:
-            return z3.BoolVal(True)
+            # a pass that goes round again without sleeping would spin with the lock held
+            return z3.BoolVal(getattr(L, 'phase', None) != 'after')
         if len(waits) != 1 or not times or waits[0][1] is None or waits[0][2] is None:
             return z3.BoolVal(False)
         if ev.index(times[-1]) > ev.index(waits[0]):
@@ -240,6 +262,22 @@ def fresh_deadline(conv):
         empty_at_wait, head_time = waits[0][2]
         return z3.And(z3.Not(empty_at_wait),
                       waits[0][1] == conv(c, head_time) - times[-1][1])
+    return inv
+
+
+def sleeps_once(ordinal, owner):
+    """'wait until there is something in scheduler': the loop is entered with the run flag set (else the thread
+    would leave at once), and every pass that goes round again has slept on the condition exactly once, untimed"""
+    def inv(c, L):
+        base = clockfloor(c) >= 0 if owner == 'cls' else z3.BoolVal(True)
+        if L.phase == 'entry' and ordinal == 0:
+            o = c.post.cls('SystemClock') if owner == 'cls' else c.post.self
+            return z3.And(base, o._run_sched)
+        if L.phase != 'after' or ordinal == 0:
+            return base
+        ev = since(c.trace, ordinal) or []
+        waits = [e for e in ev if e[0] == 'wait']
+        return z3.And(base, z3.BoolVal(len(waits) == 1 and waits[0][1] is None))
     return inv
 
 
@@ -256,12 +294,12 @@ def forget_queue(eng, st):
 
 
 LOOPS_SYS = {
-    0: Loop(early_exit=True, inv=lambda c, L: clockfloor(c) >= 0, havoc_fields=[('main', '__clockfloor'), ('cls:SystemClock', '_run_sched')],
+    0: Loop(early_exit=True, inv=sleeps_once(0, 'cls'), havoc_fields=[('main', '__clockfloor'), ('cls:SystemClock', '_run_sched')],
             kinds={'now': 'real'}, havoc_hook=forget_queue),
-    1: Loop(early_exit=True, inv=lambda c, L: clockfloor(c) >= 0, havoc_fields=[('main', '__clockfloor'), ('cls:SystemClock', '_run_sched')],
+    1: Loop(early_exit=True, inv=sleeps_once(1, 'cls'), havoc_fields=[('main', '__clockfloor'), ('cls:SystemClock', '_run_sched')],
             havoc_hook=forget_queue),
     2: Loop(early_exit=True, inv=lambda c, L: z3.And(clockfloor(c) >= 0, L.now <= clockfloor(c),
-                                    fresh_deadline(secs_identity)(c, L)),
+                                    fresh_deadline(secs_identity, lambda c, L: L.now)(c, L)),
             havoc_fields=[('main', '__clockfloor'), ('cls:SystemClock', '_run_sched')], kinds={'now': 'real'},
             havoc_hook=forget_queue),
     3: Loop(inv=perform_iteration(secs_identity, 'SystemClock._sched_add'),
@@ -349,7 +387,9 @@ def tperform(c, L):
     t0, task = pops[0][1], pops[0][2]
     kind, val = awakes[0][2], awakes[0][3]
     s = c.pre.self           # the map in force when the task is awakened (no wait in between)
+    flag = awakes[0][4] if len(awakes[0]) > 4 else None
     clauses = [z3.BoolVal(ev.index(lts[0]) < ev.index(awakes[0])),
+               flag.z if flag is not None and flag.k == 'bool' else z3.BoolVal(False),   # the task runs with the awake flag set
                t0 <= eb,                                     # never early (in beats)
                z3.Not(c.post.main._in_awake_call),
                z3.BoolVal(awakes[0][1].oid == task.oid),
@@ -398,14 +438,21 @@ def beats_to_secs_now(c, beats):
     return (beats - s._base_beats) * s._beat_dur + s._base_seconds
 
 
+def now_in_secs(c, L):
+    # elapsed_beats = secs2beats(time reading) under the map in force  <=>  the reading, solved for seconds
+    # (stated multiplied out: no division)
+    s = c.post.self
+    return ('beats', L.elapsed_beats, s)
+
+
 TFIELDS = [('self', '_run_sched'), ('self', '_tempo'), ('self', '_beat_dur'),
            ('self', '_base_seconds'), ('self', '_base_beats'), ('self', '_beats'),
            ('main', '__clockfloor')]
 LOOPS_T = {
-    0: Loop(early_exit=True, inv=lambda c, L: z3.BoolVal(True), havoc_fields=TFIELDS, kinds={'elapsed_beats': 'real'},
+    0: Loop(early_exit=True, inv=sleeps_once(0, 'self'), havoc_fields=TFIELDS, kinds={'elapsed_beats': 'real'},
             havoc_hook=forget_queue),
-    1: Loop(early_exit=True, inv=lambda c, L: z3.BoolVal(True), havoc_fields=TFIELDS, havoc_hook=forget_queue),
-    2: Loop(early_exit=True, inv=lambda c, L: fresh_deadline(beats_to_secs_now)(c, L), havoc_fields=TFIELDS,
+    1: Loop(early_exit=True, inv=sleeps_once(1, 'self'), havoc_fields=TFIELDS, havoc_hook=forget_queue),
+    2: Loop(early_exit=True, inv=lambda c, L: fresh_deadline(beats_to_secs_now, now_in_secs)(c, L), havoc_fields=TFIELDS,
             kinds={'elapsed_beats': 'real'}, havoc_hook=forget_queue),
     3: Loop(inv=lambda c, L: z3.And(tperform(c, L), tlt(c, L)),
             havoc_fields=[('main', '_in_awake_call'), ('self', '_beats'), ('self', '_tempo'),
